@@ -172,3 +172,22 @@ PROPS["C05"] = dict(
                "A quadratic form within the rounding bound of zero is counted as inconclusive, not as a failure.",
     assumptions=["the mapping is a diffeomorphism on the grid (cases with det DF = 0 at a node are discarded and counted)"],
 )
+
+PROPS["C04"] = dict(
+    harness="c04_directsolver", flavour="rel",
+    quick=dict(workers=8, cases=800, min_nontrivial=150),
+    thorough=dict(workers=16, cases=40000, min_nontrivial=1500, budget_s=3000),
+    rule="Grids from the smallest hierarchy level (nr=5, ntheta=4) to 33x40, 2% up to 49x64 (fill-in), all spacing "
+         "classes, explicit and automatic splits, four geometries, seven profiles, both boundary modes; "
+         "DirectSolverGiveCustomLU (any cache-flag combination) and DirectSolverTakeCustomLU assembled with 1,2,3,5,16 "
+         "threads; 1-3 right-hand sides per factorisation of kinds normal/smooth/unit/spikes/huge dynamic range/constant. "
+         "Non-trivial: >=40 nodes and non-circular geometry or non-uniform grid. Distinct: (dims, geometry, profile, BC, "
+         "#circles, threads, rhs kind).",
+    technique="property-based testing (rapidcheck); inverse/round-trip oracle (solve then independent residual), differential give vs take",
+    level_text="The solution returned by each strategy's direct solver is fed to the other strategy's residual operator "
+               "and to the independent reference operator; every row's residual must stay below the row-scaled "
+               "normwise LU bound C*n*eps*(|A_i|_1 |x|_inf + |f_i|), and A(x_give-x_take) likewise. Exploration.",
+    level_note="Trusted: reference operator (refop.h); constant C=2 (observed maxima in the evidence). Row scaling "
+               "invariance of |L||U| justifies the row-wise form of the bound.",
+    assumptions=["mapping non-degenerate on the grid"],
+)
